@@ -81,8 +81,14 @@ class Hook:
                 return (path, [rows[args[0]]], cols)
             if name in ('head', 'topRows') and len(args) == 1:
                 return (path, rows[:args[0]], cols)
-            if name == 'segment' and len(args) == 2:
+            if name in ('segment', 'middleRows') and len(args) == 2:
+                if args[0] < 0 or args[1] < 0 or args[0] + args[1] > len(rows):
+                    raise sym.Unsupported('view %s(%d, %d) leaves the %d rows of the buffer at %s' % (name, args[0], args[1], len(rows), node.get('loc')))
                 return (path, rows[args[0]:args[0] + args[1]], cols)
+            if name in ('tail', 'bottomRows') and len(args) == 1:
+                return (path, rows[len(rows) - args[0]:], cols)
+            if name == 'middleCols' and len(args) == 2:
+                return (path, rows, cols[args[0]:args[0] + args[1]])
             if name == 'block' and len(args) == 4:
                 return (path, rows[args[0]:args[0] + args[2]], cols[args[1]:args[1] + args[3]])
             if name == 'topLeftCorner' and len(args) == 2:
@@ -219,8 +225,14 @@ class Hook:
             return sp.ImmutableMatrix(X[ints[0], :])
         if name in ('head', 'topRows') and len(ints) == 1:
             return sp.ImmutableMatrix(X[:ints[0], :])
-        if name == 'segment' and len(ints) == 2:
+        if name in ('segment', 'middleRows') and len(ints) == 2:
+            if ints[0] < 0 or ints[1] < 0 or ints[0] + ints[1] > X.shape[0]:
+                raise sym.Unsupported('view %s(%d, %d) leaves the %d rows of the matrix' % (name, ints[0], ints[1], X.shape[0]))
             return sp.ImmutableMatrix(X[ints[0]:ints[0] + ints[1], :])
+        if name in ('tail', 'bottomRows') and len(ints) == 1:
+            return sp.ImmutableMatrix(X[X.shape[0] - ints[0]:, :])
+        if name == 'middleCols' and len(ints) == 2:
+            return sp.ImmutableMatrix(X[:, ints[0]:ints[0] + ints[1]])
         if name == 'block' and len(ints) == 4:
             return sp.ImmutableMatrix(X[ints[0]:ints[0] + ints[2], ints[1]:ints[1] + ints[3]])
         if name == 'topLeftCorner' and len(ints) == 2:
